@@ -357,7 +357,7 @@ def run_property(pid, tier, seed, replay, keep, only):
                         job["name"], rc, txt[-5000:]))
 
     st = merge_stats(sdir, pid)
-    if st["files"] == 0 and not st["violations"]:
+    if st["files"] == 0 and not st["violations"] and not crash_violations:
         raise Infra("no stats were written")
     viols = st["violations"] + crash_violations
     wall = time.time() - t0
